@@ -5,3 +5,6 @@ import CliUtils.Props.C06
 import CliUtils.Props.C20
 import CliUtils.Props.C17
 import CliUtils.Props.C14
+import CliUtils.Props.C07
+import CliUtils.Props.C08
+import CliUtils.Props.C09
